@@ -1,5 +1,6 @@
 import GPVerif.Model.ParamStore
 import GPVerif.Gen.Priors
+import GPVerif.Gen.InitDispatch
 import GPVerif.Model.Proto
 /-!
 Line-protocol driver for C17 (Float instance of the generated constraint formulas / store model / prior
@@ -11,6 +12,10 @@ log-densities).  Doubles travel as their 64-bit patterns (decimal `UInt64`), so 
   H <kind> <l> <u> <raw0> op…  -> per op  raised:read:raw   ops: S v | R r | D δ | A r | K kind l u
   X l1 u1 l2 u2                -> intersect lower upper
   P <prior> params… x          -> log density
+  N <#modules> {path isList}* <#leaves> {path p|r pid}* <#params> {kind l u raw0}* <#kwargs> {path value}*
+                               -> `G raised {read:raw}* | S raised {read:raw}*`: one `Module.initialize(**kwargs)` on a
+                                  module tree, run by the program REGENERATED from module.py (`G`) and by the
+                                  specification `initFold` (`S`); paths are `.`-joined segment ids, `-` = the root
 -/
 open ParamStore Gen.Constraints ScalarFn
 
@@ -51,6 +56,60 @@ partial def runOps (s : Store Float) (ts : List String) (acc : List String) : Op
       runOps r.1 rest (emit r :: acc)
   | _ => none
 
+/-! multi-name / dotted-name `initialize` on a module tree -/
+
+def pathOf (s : String) : Option Path :=
+  if s == "-" then some [] else (s.splitOn ".").mapM String.toNat?
+
+/-- the tree described by its module paths (with the `nn.ModuleList` flag) and its plain names -/
+def buildNode (mods : List (Path × Bool)) (leaves : List (Path × Target)) : Nat → Path → Node
+  | 0, _ => .none
+  | fuel + 1, pre =>
+    match mods.lookup pre with
+    | none => .none
+    | some true => .list fun i => buildNode mods leaves fuel (pre ++ [i])
+    | some false => .mod (fun x => leaves.lookup (pre ++ [x])) (fun x => buildNode mods leaves fuel (pre ++ [x]))
+
+def takeN {β : Type} (n : Nat) (f : List String → Option (β × List String)) :
+    Nat → List String → List β → Option (List β × List String)
+  | 0, ts, acc => some (acc.reverse, ts)
+  | k + 1, ts, acc => do
+      let (b, ts) ← f ts
+      takeN n f k ts (b :: acc)
+
+def showStore (r : Store Float × Bool) (np : Nat) : String :=
+  let cells := (List.range np).map fun p => s!"{fShow (r.1.read p)}:{fShow (r.1.raw p)}"
+  s!"{if r.2 then 1 else 0} " ++ " ".intercalate cells
+
+def runInit (ts : List String) : Option String := do
+  let (nm :: ts) := ts | none
+  let (mods, ts) ← takeN 0 (fun ts => match ts with
+    | p :: f :: rest => do some ((← pathOf p, f == "1"), rest)
+    | _ => none) (← nm.toNat?) ts []
+  let (nl :: ts) := ts | none
+  let (leaves, ts) ← takeN 0 (fun ts => match ts with
+    | p :: t :: pid :: rest => do
+        let pid ← pid.toNat?
+        some ((← pathOf p, if t == "p" then Target.pub pid else Target.raw pid), rest)
+    | _ => none) (← nl.toNat?) ts []
+  let (np :: ts) := ts | none
+  let np ← np.toNat?
+  let (params, ts) ← takeN 0 (fun ts => match ts with
+    | k :: l :: u :: r0 :: rest => do some ((← kindOf k (← fOf l) (← fOf u), ← fOf r0), rest)
+    | _ => none) np ts []
+  let (nk :: ts) := ts | none
+  let (kws, ts) ← takeN 0 (fun ts => match ts with
+    | p :: v :: rest => do some ((← pathOf p, ← fOf v), rest)
+    | _ => none) (← nk.toNat?) ts []
+  if !ts.isEmpty then none
+  let depth := (mods.map fun m => m.1.length).foldl max 0
+  let root := buildNode mods leaves (depth + 2) []
+  let store : Store Float :=
+    ⟨fun p => (params.getD p (Kind.positive, 0)).1, fun p => (params.getD p (Kind.positive, 0)).2⟩
+  let g := Init.exec Gen.InitDispatch.initializeProg root store kws
+  let sp := initFold root store kws
+  some s!"G {showStore g np} | S {showStore sp np}"
+
 def prior (name : String) (a : List Float) : Option Float :=
   match name, a with
   | "normal", [μ, σ, x] => some (Priors.normalLogProb μ σ x)
@@ -85,6 +144,7 @@ def step (line : String) : String :=
         some (" ".intercalate out)
     | ["X", l1, u1, l2, u2] => do
         some s!"{fShow (intersectLower (← fOf l1) (← fOf l2))} {fShow (intersectUpper (← fOf u1) (← fOf u2))}"
+    | "N" :: rest => runInit rest
     | "P" :: name :: args => do
         let a ← args.mapM fOf
         (prior name a).map fShow
